@@ -65,7 +65,8 @@ theorem c05_open_panics_on_max_index :
 the chunks `ids` load cleanly (`Loads`), the newest file `h` starts where they
 end (`gapCheck`) and holds no complete record. Then `open` succeeds; the file
 `h` is unlinked and a new file with the SAME id `h` is created holding exactly
-the `State` record of the replayed state; no other file is changed. -/
+the `State` record of the replayed state; no other file is changed except that the
+kept chunks `ids` were synced (D15: `fs.syncAll ids` in the frame condition). -/
 theorem c05_headless_newest_is_recreated (cfg : Cfg) (fs : Fs) (ids : List Nat) (h : Nat)
     (a' : OpenAcc) (f : File)
     (hids : fs.linkedIds = ids ++ [h])
@@ -81,10 +82,11 @@ theorem c05_headless_newest_is_recreated (cfg : Cfg) (fs : Fs) (ids : List Nat) 
       w.files = [⟨h, prevLastOf a'.sm.closed⟩] ∧
       fs'.find h = some { id := h, data := encRecord (.state a'.sm.st), durable := 0,
                           linked := true } ∧
-      ∀ id, id ≠ h → fs'.find id = fs.find id := by
+      ∀ id, id ≠ h → fs'.find id = (fs.syncAll ids).find id := by
   obtain ⟨hfs, hevs⟩ := hload.fs_evs
-  have hfind' : a'.fs.find h = some f := by rw [hfs]; exact hfind
-  obtain ⟨tr, hl⟩ := openLoop_headless habut hfind' hd
+  obtain ⟨f1, hfind1, hd1, _, _⟩ := Fs.find_syncAll_some ids hfind
+  have hfind' : a'.fs.find h = some f1 := by rw [hfs]; exact hfind1
+  obtain ⟨tr, hl⟩ := openLoop_headless habut hfind' (hd1 ▸ hd)
   have hloop : openLoop cfg fs.linkedIds { sm := emptyStore cfg, fs := fs }
       = (.ok (a'.dropHeadless h tr), a'.dropHeadless h tr) := by
     rw [hids, hload.openLoop_append, hl]
@@ -193,7 +195,8 @@ example : ∃ a', Loads {} [0]
 
 example : (openStore {} [{ id := 0, data := encAll [.state {}] },
                { id := 18, data := (encRecord (.state {})).take 5 }]).2.1
-    = [{ id := 0, data := encAll [.state {}] }, { id := 18, data := encRecord (.state {}) }] := by
+    = [{ id := 0, data := encAll [.state {}], durable := 18 },
+       { id := 18, data := encRecord (.state {}) }] := by
   decide +kernel
 
 end RaftLog
